@@ -117,7 +117,62 @@ def gen_entity_pair(rng):
     sub = scenario([c], [kept], {k: v for k, v in cfg.items() if k[1] == kept}, steps([kept]))
     return '(multi [%s %s %s])' % (full, sub, full)
 
+def gen_late_pair(rng):
+    """a consuming context above and a listener below share a key; an input-disjoint context of a priority in between arrives
+    (its bindings still under the start-up test) just before the key goes down, or leaves again: deleting it changes nothing"""
+    ids = Ids()
+    cs = sorted(rng.sample([0, 2, 4, 6, 1, 3], 3), key=lambda c: -CTX_PRIO[c])      # hi, mid, lo by priority
+    hi, mid, lo = cs
+    k = rng.randrange(2)
+    def one(a_, inp, consume):
+        return spec([action(ids, aid(a_ % 4, a_ // 4, consume, False), [bind(ids, inp, [PROBE], [])])])
+    cfg = {(hi, 0): one(0, key(k), True), (lo, 0): one(1, key(k), rng.random() < .5), (mid, 0): one(2, rng.choice([key(2), key(3), mbutton(1), wheel()]), rng.random() < .5)}
+    L = rng.randint(5, 8)
+    raws = [raw(keys=[k] if rng.random() < .75 else [], pads=[pad(0)]) for _ in range(L)]
+    when = rng.randrange(1, L - 1); gone = rng.choice([None, rng.randrange(when + 1, L)])
+    def steps(with_mid):
+        st = [sop(spawn(0, [hi, lo])), frame(raw(pads=[pad(0)]))]
+        for i, r in enumerate(raws):
+            # the sub run keeps the same steps (an operation on a deleted type is a no-op there), as in gen_pair
+            if i == when: st.append(sop(insert(0, mid)))
+            if gone is not None and i == gone: st.append(sop(remove(0, mid)))
+            st.append(frame(r))
+        return st
+    menu = sorted(cs)
+    full = scenario(menu, [0], cfg, steps(True))
+    sub = scenario(sorted([hi, lo]), [0], {k_: v for k_, v in cfg.items() if k_[0] != mid}, steps(False))
+    return '(multi [%s %s %s])' % (full, sub, full)
+
+def gen_emptied_pair(rng):
+    """an input-disjoint context type of the HIGHEST (or of a middle) priority loses its last holder in mid-run: the order in
+    which the remaining types are evaluated - a consumer above a listener on the same key - is what it was"""
+    ids = Ids()
+    cs = sorted(rng.sample([0, 2, 4, 6, 1, 3, 7], rng.choice([3, 4])), key=lambda c: -CTX_PRIO[c])
+    gone_t = cs[rng.choice([0, 0, 1])]                      # the type that empties: the first group, or the second
+    rest = [c for c in cs if c != gone_t]
+    hi, lo = rest[0], rest[-1]
+    k = rng.randrange(2)
+    def one(a_, inp, consume):
+        return spec([action(ids, aid(a_ % 4, a_ // 4, consume, False), [bind(ids, inp, [PROBE], [])])])
+    cfg = {(hi, 0): one(0, key(k), True), (lo, 0): one(1, key(k), False), (gone_t, 0): one(2, key(3), True)}
+    for j, c in enumerate(rest[1:-1]): cfg[(c, 0)] = one(4 + j, key(2), False)
+    L = rng.randint(5, 8); when = rng.randrange(1, L - 1)
+    raws = [raw(keys=[k] if rng.random() < .8 else [], pads=[pad(0)]) for _ in range(L)]
+    def steps(spawned):
+        st = [sop(spawn(0, spawned)), frame(raw(pads=[pad(0)]))]
+        for i, r in enumerate(raws):
+            if i == when: st.append(sop(remove(0, gone_t)))
+            st.append(frame(r))
+        return st
+    full = scenario(sorted(cs), [0], cfg, steps(sorted(cs)))
+    sub = scenario(sorted(rest), [0], {k_: v for k_, v in cfg.items() if k_[0] != gone_t}, steps(sorted(rest)))
+    return '(multi [%s %s %s])' % (full, sub, full)
+
 def cases(tier, rng):
+    for _ in range(40 if tier == 'thorough' else 8):
+        yield (gen_emptied_pair(rng), 'pair-disjoint-type-empties')
+    for _ in range(60 if tier == 'thorough' else 12):
+        yield (gen_late_pair(rng), 'pair-late-disjoint-context')
     for _ in range(60 if tier == 'thorough' else 8):
         yield (gen_gamepad_pair(rng), 'pair-per-gamepad')
     for _ in range(60 if tier == 'thorough' else 8):
@@ -131,7 +186,7 @@ def nontrivial(case, out):
 STAGES = [dict(name='pairs', mode='app', coq='Check.C17c', profile=('Proofs.JudgeC17eP', '(fun mc => JudgeC17P.profile_C17b mc || JudgeC17eP.profile_C17eb mc)', 'C17_app_judgement_sound (context-type deletion) / C17_entity_judgement_sound (entity deletion); determinism clauses hold trivially on the model; transfer is false for them by design'), cases=cases, nontrivial=nontrivial, shard=10, noshrink=True, across_processes=40,
                exhaustive={'thorough': False, 'quick': False},
                rule='random configurations of 2-5 context types split into a kept set R and a deleted set D whose bound inputs are disjoint (different keys, different required modifier keys, different '
-                    'mouse and gamepad inputs), interleaved in priority, with consuming actions, built-in and scripted conditions and modifiers, 1-2 entities, a component op or rebuild in the middle; contexts tied to different gamepads that bind the same buttons and axes (the consuming one deleted); per-player instances of one exclusive type with disjoint keys, a rebuild in the middle, one player deleted; three runs '
+                    'mouse and gamepad inputs), interleaved in priority, with consuming actions, built-in and scripted conditions and modifiers, 1-2 entities, a component op or rebuild in the middle; contexts tied to different gamepads that bind the same buttons and axes (the consuming one deleted); per-player instances of one exclusive type with disjoint keys, a rebuild in the middle, one player deleted; an input-disjoint context of a priority between a consumer and a listener that arrives just before the contested key goes down, or leaves again; an input-disjoint type of the highest priority whose last holder leaves; three runs '
                     'per case: the full configuration, the configuration with D deleted and with extra activity on keys, modifier keys, a mouse button and gamepad inputs that nobody binds, and the full configuration again; all cases are run a second time in fresh processes and the traces compared byte by byte. '
                     'non-trivial = some action fires; distinct = distinct case text')]
 CLAUSES = {2: 'main-segment events of the kept contexts differ when the disjoint contexts are deleted / unbound inputs are active', 3: 'later events of the kept contexts differ', 4: 'the invocation log (reads, values, results) of the kept contexts differs',
